@@ -19,7 +19,7 @@ for l in open(resf):
     for f in ('patch.diff', 'demo.py'):
         shutil.copy(os.path.join(src, f), os.path.join(dst, f))
     meta = json.load(open(os.path.join(src, 'meta.json')))
-    meta['origin'] = 'independent sub-agent (round 8) given only the property text and a scratch worktree of /repo@%s' % origin
+    meta['origin'] = 'independent sub-agent (round 9) given only the property text and a scratch worktree of /repo@%s' % origin
     meta['confirmed'] = {'by': 'tools/verify_seed.sh in a fresh scratch worktree', 'suite_with_patch': suite,
                          'demo_exit_unchanged_tree': int(clean), 'demo_exit_with_patch': int(mut),
                          'run': 'cd <tree> && PYTHONPATH=<tree> /venv/bin/python demo.py'}
